@@ -58,8 +58,34 @@ func Run(p *load.Program, tier string) *oblig.Set {
 	}
 	e.T = obj.Type()
 	e.st = e.T.Underlying().(*types.Struct)
+	// the fields by what they hold, whatever they are called: the stack
+	// pointer (int), the frame pointer pairs ([]int), the globals (a map), the
+	// closure stack (a slice of slices), the value stack (a slice of values)
 	for i := 0; i < e.st.NumFields(); i++ {
-		e.fld[e.st.Field(i).Name()] = i
+		role := e.st.Field(i).Name()
+		switch u := e.st.Field(i).Type().Underlying().(type) {
+		case *types.Basic:
+			if u.Kind() == types.Int {
+				role = "sp"
+			}
+		case *types.Map:
+			role = "global"
+		case *types.Slice:
+			switch eu := u.Elem().Underlying().(type) {
+			case *types.Basic:
+				if eu.Kind() == types.Int {
+					role = "fp"
+				}
+			case *types.Slice:
+				role = "closure"
+			case *types.Struct:
+				role = "stack"
+			}
+		}
+		if _, dup := e.fld[role]; dup {
+			role = e.st.Field(i).Name() // a second field of the same kind: a new field, reported below
+		}
+		e.fld[role] = i
 	}
 	for n := range fieldSym {
 		if _, ok := e.fld[n]; !ok {
